@@ -293,9 +293,10 @@ func (c *client) executeWriteLoop(
 	runID string,
 	signalsToStep <-chan schema.Input,
 ) {
-	c.mutex.Lock()
-	if c.done {
-		c.mutex.Unlock()
+	// Close() cancels the context before anything else. This must not wait for the client's mutex: the read loop holds
+	// it while it hands a signal emitted by the step to the caller, and a caller that sends its own signals before it
+	// receives would wait for this loop to take them.
+	if c.context.Err() != nil {
 		// Close() was called, so exit now.
 		c.logger.Warningf(
 			"write called loop for run ID %q on done client; skipping receive loop",
@@ -303,7 +304,6 @@ func (c *client) executeWriteLoop(
 		)
 		return
 	}
-	c.mutex.Unlock()
 
 	// Looped select that gets signals
 	for {
